@@ -32,6 +32,8 @@ Inductive auth_r := AuthAnon (* no login given *) | AuthOk (* login accepted, us
 Inductive cl_r := ClAbsent (* header missing or empty *) | ClInt (z : Z) (* int(...) succeeds *)
                 | ClBad (* int(...) raises ValueError *).
 
+(* r_method: `getattr(self, "do_" + METHOD)` exists.  The gate does not look at WHICH method it is: the size check
+   applies to every dispatched method alike (the correspondence instantiates r_method = true with every do_ method). *)
 Record req := mkReq { r_pref : prefix_r; r_method : bool (* do_<METHOD> exists *); r_wk : wk_r;
                       r_auth : auth_r; r_cl : cl_r }.
 
@@ -95,7 +97,11 @@ Inductive outcome := OResp (st : N)   (* answered by http.server / the gate with
                    | OTimeout         (* socket.timeout while waiting for the request *)
                    | OEof.            (* the client closed before sending a request *)
 
-Inductive wstatus := WReading         (* thread blocked in rfile.readline *)
+(* WReading starts AT ACCEPT: get_request calls settimeout before the thread exists, so the socket timeout covers
+   everything the thread does before a request is there -- with ssl = True that includes the TLS handshake
+   (ParallelHTTPSServer.finish_request_locked), then rfile.readline.  TTimeout is enabled in WReading as long as the
+   client has sent nothing the thread could complete its read with (CIdle), from the accept on. *)
+Inductive wstatus := WReading         (* thread waits for the client: TLS handshake (https), then rfile.readline *)
                    | WHandling        (* thread inside the application handler do_* *)
                    | WDone (o : outcome). (* finish_request's finally ran: worker_socket closed, so the
                                              entry of worker_sockets is readable; not yet reaped *)
